@@ -9,8 +9,8 @@
      * a string at `string` / `binary` is its bytes with the IDL escapes resolved;
      * an enum-typed value is written as the qualified member name or as the declared number of a member; a member
        name at an integer type is its number;
-     * a reference to a constant is the constant's value (its type must agree with the target up to typedefs; a constant
-       of enum type may also be used as its number at an integer type);
+     * a reference to a constant is the constant's value; the constant's type must be the target's, or both must resolve
+       (typedefs) to the same scalar / named type; a constant of enum type may also be used as its number at an integer type;
      * `[..]` at list / set, `{k: v, ..}` at map (and `[]` for the empty map), element by element;
      * `{"field": v, ..}` at a struct: named members get their values, an optional member that is not named stays
        unset, a required member that is not named holds its type's empty value;
@@ -89,21 +89,6 @@ Section Spec.
     end.
   Definition sresolve : ty -> ty := sresolve_n (Datatypes.S (length (ls_items S))).
 
-  (* typedefs expanded at every level (for comparing the type of a constant with the type it is used at) *)
-  Fixpoint snorm_n (fuel : nat) (t : ty) : ty :=
-    match fuel with
-    | O => t
-    | Datatypes.S f =>
-        match t with
-        | TyList a => TyList (snorm_n f a)
-        | TySet a => TySet (snorm_n f a)
-        | TyMap a b => TyMap (snorm_n f a) (snorm_n f b)
-        | TyRef n => match sitem n with Some (INewType a) => snorm_n f (erase a) | _ => t end
-        | _ => t
-        end
-    end.
-  Definition snorm : ty -> ty := snorm_n (32 + length (ls_items S)).
-
   Fixpoint ty_eqb (a b : ty) : bool :=
     match a, b with
     | TyBool, TyBool | TyI8, TyI8 | TyI16, TyI16 | TyI32, TyI32 | TyI64, TyI64 | TyDouble, TyDouble | TyString, TyString
@@ -113,6 +98,14 @@ Section Spec.
     | TyRef n, TyRef m => Nat.eqb n m
     | _, _ => false
     end.
+
+  (* a type whose typedefs could not be resolved (cyclic typedefs, dangling reference): nothing is well-typed at it *)
+  Definition unresolved (t : ty) : bool :=
+    match t with
+    | TyRef n => match sitem n with Some (INewType _) | None => true | _ => false end
+    | _ => false
+    end.
+  Definition scalar_head (t : ty) : bool := match t with TyList _ | TySet _ | TyMap _ _ => false | _ => true end.
 
   Definition int_at (t : ty) (z : Z) : option gval :=
     match t with
@@ -132,12 +125,16 @@ Section Spec.
       | LConst c =>
           match nth_error (ls_consts S) c with
           | Some (ct, _) =>
-              if ty_eqb (snorm (erase ct)) (snorm t) then cv c
+              let rt := sresolve t in
+              let rc := sresolve (erase ct) in
+              if unresolved rt then None
+              else if ty_eqb (erase ct) t || (scalar_head rt && ty_eqb rc rt)
+              then cv c                                  (* the same type, or scalar / named types equal up to typedefs *)
               else
                 (* a constant of enum type used as a number *)
-                match snorm (erase ct), cv c with
+                match rc, cv c with
                 | TyRef e, Some (GEnum z) =>
-                    match sitem e with Some (IEnum _) => int_at (sresolve t) z | _ => None end
+                    match sitem e with Some (IEnum _) => int_at rt z | _ => None end
                 | _, _ => None
                 end
           | None => None
